@@ -6,6 +6,7 @@ import (
 	"bytes"
 	"encoding/json"
 	"fmt"
+	"io"
 	"os"
 	"os/exec"
 	"path/filepath"
@@ -224,6 +225,16 @@ func purityPool(samples map[string]*Msg, thorough bool) ([]string, []*Msg) {
 		bad.setElem("SenderDepositoryInstitution", "SenderShortName", "Bad*Name\n")
 		names = append(names, n+"#invalid")
 		pool = append(pool, bad)
+		// no options of its own and a waivable tag missing: the verdict rests on the defaults alone
+		for _, wt := range []string{"SenderSupplied", "InputMessageAccountabilityData"} {
+			if _, has := samples[n].Tags[wt]; has && len(pool) < 40 {
+				nw := samples[n].Clone()
+				delete(nw.Tags, wt)
+				nw.Opts = nil
+				names = append(names, n+"#no-"+wt)
+				pool = append(pool, nw)
+			}
+		}
 		// every tag of the sample with one element longer than its width / its declared length
 		k := 0
 		for _, tn := range sortedKeys(samples[n].Tags) {
@@ -596,6 +607,57 @@ func init() {
 			}
 			o.Case("prop:pure", res, names[i])
 		}
+		// independent readers, writers and files between two observations of a message leave it - and what the
+		// operations answer for it - alone (shared defaults, package-level state)
+		texts := sampleTexts()
+		var tnames []string
+		for tn := range texts {
+			tnames = append(tnames, tn)
+		}
+		sort.Strings(tnames)
+		activities := []struct {
+			name string
+			run  func()
+		}{
+			{"new-file-incoming", func() { _ = wire.NewFile(wire.IncomingFile()) }},
+			{"new-file-outgoing", func() { _ = wire.NewFile(wire.OutgoingFile()) }},
+			{"reader-incoming", func() { _ = doRead(texts[tnames[0]], 0, nil, io.EOF, "in", nil) }},
+			{"reader-outgoing", func() { _ = doRead(texts[tnames[0]], 0, nil, io.EOF, "out", nil) }},
+			{"reader-with-options", func() {
+				_ = doRead(texts[tnames[0]], 0, nil, io.EOF, "nil", &wire.ValidateOpts{SkipMandatoryIMAD: true, AllowMissingSenderSupplied: true})
+			}},
+			{"set-validation-elsewhere", func() {
+				f := wire.NewFile()
+				f.SetValidation(&wire.ValidateOpts{SkipMandatoryIMAD: true, AllowMissingSenderSupplied: true})
+				_ = f.Validate()
+			}},
+			{"other-message-written", func() {
+				if len(pool) > 0 {
+					_ = pureOutputs(pool[0].ToWire())
+				}
+			}},
+		}
+		for i, m := range pool {
+			if !thorough && i >= 40 {
+				break
+			}
+			fwm := m.ToWire()
+			for _, a := range activities {
+				before := deepSnapshot(fwm)
+				out1 := pureOutputs(fwm)
+				a.run()
+				after := deepSnapshot(fwm)
+				out2 := pureOutputs(fwm)
+				res := "same"
+				switch {
+				case before != after:
+					res = "differ:the message changed while an independent " + a.name + " ran"
+				case out1 != out2:
+					res = "differ:verdict / text / JSON of the message differ after an independent " + a.name
+				}
+				o.Case("prop:pure", res, names[i], a.name)
+			}
+		}
 		// shared use under the race detector: a separate binary built with -race
 		race := filepath.Join(filepath.Dir(os.Args[0]), "harness-race")
 		if _, err := os.Stat(race); err != nil {
@@ -661,6 +723,8 @@ func init() {
 						go func(t string) {
 							defer wg.Done()
 							r := doRead(t, 7, nil, nil, "nil", nil)
+							_ = doRead(t, 7, nil, nil, "in", nil)
+							_ = doRead(t, 7, nil, nil, "out", nil)
 							mu.Lock()
 							side = append(side, r)
 							mu.Unlock()
